@@ -419,6 +419,111 @@ def has_func_direct(t):
     return False
 
 
+def contains_func(t, _seen=None):
+    """the type mentions a func type anywhere (llgo rewrites such types: closure structs)"""
+    if _seen is None:
+        _seen = []
+    t = unalias(t)
+    if any(t is x for x in _seen):
+        return False
+    if isinstance(t, Func):
+        return True
+    if isinstance(t, Named):
+        if t.under is None:
+            return False
+        return contains_func(t.under, _seen + [t])
+    if isinstance(t, Inst):
+        return any(contains_func(a, _seen) for a in t.args) or t.gen.under_kind == "func"
+    if isinstance(t, StdIface):
+        return False
+    if isinstance(t, (Ptr, Slice, Array, Chan)):
+        return contains_func(t.elem, _seen)
+    if isinstance(t, Map):
+        return contains_func(t.key, _seen) or contains_func(t.elem, _seen)
+    if isinstance(t, Struct):
+        return any(contains_func(f.ty, _seen) for f in t.fields)
+    if isinstance(t, Iface):
+        for m in t.all_methods().values():
+            if any(contains_func(x, _seen) for x in m.params + m.results):
+                return True
+        return False
+    return False
+
+
+def zero_size(t, d=0):
+    if d > 8:
+        return False
+    u = underlying(t)
+    if isinstance(u, Struct):
+        return all(zero_size(f.ty, d + 1) for f in u.fields)
+    if isinstance(u, Array):
+        return u.n == 0 or zero_size(u.elem, d + 1)
+    return False
+
+
+_BASIC_SIZE = {"bool": 1, "int8": 1, "uint8": 1, "int16": 2, "uint16": 2, "int32": 4, "uint32": 4, "float32": 4, "int": 8, "uint": 8,
+               "int64": 8, "uint64": 8, "uintptr": 8, "float64": 8, "complex64": 8, "complex128": 16, "string": 16, "rune": 4}
+_BASIC_ALIGN = {"complex64": 4, "complex128": 8, "string": 8}
+
+
+def size_align(t, d=0):
+    """(size, align) on amd64 with llgo's layout (func values: two words) - used only for conservative avoidance"""
+    if d > 10:
+        return 8, 8
+    u = underlying(t)
+    if isinstance(u, Basic):
+        sz = _BASIC_SIZE[u.name]
+        return sz, _BASIC_ALIGN.get(u.name, sz)
+    if isinstance(u, (Ptr, Map, Chan, UnsafePtr)):
+        return 8, 8
+    if isinstance(u, Func):
+        return 16, 8
+    if isinstance(u, Slice):
+        return 24, 8
+    if isinstance(u, (Iface, StdIface)):
+        return 16, 8
+    if isinstance(u, Array):
+        sz, al = size_align(u.elem, d + 1)
+        return sz * u.n, al
+    if isinstance(u, Struct):
+        off, mal = 0, 1
+        for f in u.fields:
+            sz, al = size_align(f.ty, d + 1)
+            off = (off + al - 1) // al * al + sz
+            mal = max(mal, al)
+        return (off + mal - 1) // mal * mal, mal
+    return 8, 8
+
+
+def direct_shaped(t, d=0):
+    """stored directly in an interface word: pointer-shaped types and one-field wrappers of them"""
+    if d > 6:
+        return False
+    u = underlying(t)
+    if isinstance(u, (Ptr, Map, Chan, Func, UnsafePtr)):
+        return True
+    if isinstance(u, Struct):
+        return len(u.fields) == 1 and direct_shaped(u.fields[0].ty, d + 1)
+    if isinstance(u, Array):
+        return u.n == 1 and direct_shaped(u.elem, d + 1)
+    return False
+
+
+def embeds_inst(t, d=0):
+    """a generic instance (or something promoting its methods) is embedded, directly or through embedded structs"""
+    if d > 6:
+        return False
+    t = unalias(t)
+    if isinstance(t, Ptr):
+        t = unalias(t.elem)
+    if isinstance(t, Inst):
+        return True
+    u = underlying(t)
+    if isinstance(u, Struct):
+        return any(f.embedded and embeds_inst(f.ty, d + 1) for f in u.fields)
+    return False
+
+
 def expressible(t, pkg, d=0):
     """can the type expression be written in package pkg (unexported names only in their home package)"""
     if isinstance(t, (Basic, UnsafePtr, StdIface)):
@@ -707,6 +812,10 @@ class TypeGen:
         self.aliases = {p: [] for p in pkgs}
         self.count = 0
         self.siblings = {}                       # Named.name -> [Named] with identical / tag-variant underlying
+        self.tagless = {}                        # tag-free struct text -> tags (finding C15-tag-collision)
+
+    def av(self, fid):
+        return fid in self.avoid
 
     # ---- helpers
     def visible_pkgs(self, pkg):
@@ -759,16 +868,44 @@ class TypeGen:
     def inst(self, pkg, d):
         r = self.rng
         g = r.choice([G_BOX, G_BOX, G_PAIR, G_LIST, G_M, G_FN, G_NUM, G_TREE, G_WRAP])
+        if g is G_FN and self.av("C15-named-func-type"):
+            g = G_BOX
         if g is G_NUM:
             c = self.visible_named(pkg, lambda n: isinstance(unalias(n.under), Basic) and n.under.name in ("int", "int8", "uint16", "float64"))
             a = r.choice(c) if c and r.random() < 0.6 else Basic(r.choice(["int", "int8", "uint16", "float64"]))
             return Inst(g, [a])
         if g in (G_PAIR, G_M):
-            return Inst(g, [self.key_type(pkg, d + 1), self.type_arg(pkg, d + 1)])
+            i_ = Inst(g, [self.key_type(pkg, d + 1), self.type_arg(pkg, d + 1)])
+            if g is G_M and not self.acceptable(Map(i_.args[0], i_.args[1])):
+                i_ = Inst(g, [i_.args[0], T_INT])
+            return i_
         return Inst(g, [self.type_arg(pkg, d + 1)])
 
     def rand_type(self, pkg, d=0, allow_named=True):
-        """a type expression valid in pkg"""
+        """a type expression valid in pkg (constructs of open findings filtered out)"""
+        for _ in range(20):
+            t = self.rand_type0(pkg, d, allow_named)
+            if self.acceptable(t):
+                return t
+        return self.basic()
+
+    def acceptable(self, t):
+        u = unalias(t)
+        if isinstance(u, Chan) and u.dir == "" and isinstance(unalias(u.elem), Chan) and unalias(u.elem).dir == "recv" and self.av("C15-chan-paren"):
+            return False
+        if isinstance(u, (Slice, Array, Chan, Map)) and isinstance(unalias(u.elem), Func) and self.av("C15-func-elem-size"):
+            return False
+        if isinstance(u, Ptr) and isinstance(unalias(u.elem), Func) and self.av("C15-ptr-func-addr"):
+            return False
+        if isinstance(u, Map) and self.av("C15-map-indirect-slot-size"):
+            for x_ in (u.key, u.elem):
+                if isinstance(unalias(x_), Named) and unalias(x_).under is None:
+                    continue
+                if size_align(x_)[0] > 96:
+                    return False
+        return True
+
+    def rand_type0(self, pkg, d=0, allow_named=True):
         r = self.rng
         x = r.random()
         if d >= 3:
@@ -819,8 +956,14 @@ class TypeGen:
             var = True
         return Func(ps, rs, var)
 
-    def embeddable(self, pkg, used):
+    def embeddable(self, pkg, used, named=True):
         """(Ty, name) candidates for an embedded field"""
+        e = self.embeddable0(pkg, used)
+        if e is not None and not named and self.av("C15-embedded-generic-compile") and embeds_inst(e[0]):
+            return None
+        return e
+
+    def embeddable0(self, pkg, used):
         r = self.rng
         x = r.random()
         if x < 0.62:
@@ -858,7 +1001,7 @@ class TypeGen:
         for i in range(nf):
             x = r.random()
             if x < (0.28 if named else 0.18) and d < 3:
-                e = self.embeddable(pkg, used)
+                e = self.embeddable(pkg, used, named)
                 if e is not None:
                     ty, name = e
                     fields.append(Field(name, ty, embedded=True))
@@ -881,14 +1024,22 @@ class TypeGen:
             fields.append(Field(name, ty))
             used.append(name)
         # a struct that mentions unexported names of another package cannot be written here
+        if self.av("C15-trailing-zero-size"):
+            while fields and zero_size(fields[-1].ty) and not all(zero_size(f.ty) for f in fields):
+                fields.pop()
         st = Struct(fields, home=pkg if unexp else None)
+        notags = (not named and self.av("C15-structstr-tags")) or (self.av("C15-func-struct-tags") and any(contains_func(f.ty) for f in fields))
         for f in fields:
-            if r.random() < 0.3:
-                if not named and "C15-structstr-tags" in self.avoid:
-                    continue
-                if isinstance(underlying(f.ty), Func) and "C15-func-field-tag" in self.avoid:
-                    continue
+            if r.random() < 0.3 and not notags:
                 f.tag = r.choice(TAG_POOL)
+        if self.av("C15-tag-collision") and fields:
+            key = Struct([Field(f.name, f.ty, "", f.embedded) for f in fields], st.home).src(pkg) + "@" + str(st.home)
+            tags = [f.tag for f in fields]
+            if key in self.tagless:
+                for f, tg_ in zip(fields, self.tagless[key]):
+                    f.tag = tg_
+            else:
+                self.tagless[key] = tags
         # embedded nil pointers must not make fmt methods panic; retry by turning pointer embeddings into value embeddings
         for f in fields:
             if f.embedded and isinstance(unalias(f.ty), Ptr):
@@ -911,14 +1062,15 @@ class TypeGen:
             n.under = Slice(r.choice([self.rand_type(pkg, 1), n]))
         elif x < 0.61:
             n.under = Map(self.key_type(pkg, 1), r.choice([self.rand_type(pkg, 1), n]))
+
         elif x < 0.65:
             n.under = Array(r.choice([0, 1, 2, 3]), self.rand_type(pkg, 1))
         elif x < 0.69:
-            n.under = self.func_type(pkg, 1)
+            n.under = self.func_type(pkg, 1) if not self.av("C15-named-func-type") else self.basic()
         elif x < 0.72:
             n.under = Chan(r.choice(["", "send", "recv"]), self.rand_type(pkg, 1))
         elif x < 0.75:
-            n.under = Ptr(self.rand_type(pkg, 1))
+            n.under = Ptr(self.rand_type(pkg, 1)) if not self.av("C15-named-ptr-string") else Slice(self.rand_type(pkg, 1))
         elif x < 0.80:
             n.under = self.inst(pkg, 1)
         elif x < 0.88 and vis:
@@ -927,12 +1079,12 @@ class TypeGen:
             n.under = o
             self.siblings.setdefault(o.name, []).append(n)
             self.siblings.setdefault(n.name, []).append(o)
-        elif x < 0.93 and [v for v in vis if isinstance(unalias(v.under), Struct) and v.pkg == pkg and v.under.fields]:
+        elif x < 0.93 and not self.av("C15-tag-collision") and [v for v in vis if isinstance(unalias(v.under), Struct) and v.pkg == pkg and v.under.fields]:
             # tag variant: identical fields, different tags (ConvertibleTo ignores tags, identity does not)
             o = r.choice([v for v in vis if isinstance(unalias(v.under), Struct) and v.pkg == pkg and v.under.fields])
             fs = [Field(f.name, f.ty, "", f.embedded) for f in o.under.fields]
             for f in fs:
-                if r.random() < 0.5 and not (isinstance(underlying(f.ty), Func) and "C15-func-field-tag" in self.avoid):
+                if r.random() < 0.5 and not (self.av("C15-func-struct-tags") and any(contains_func(g_.ty) for g_ in fs)):
                     f.tag = r.choice(TAG_POOL)
             n.under = Struct(fs, home=o.under.home)
             self.siblings.setdefault(o.name, []).append(n)
@@ -941,6 +1093,8 @@ class TypeGen:
             ifn = self.named_iface(pkg, n)
             if not ifn:
                 n.under = self.basic()
+        if not isinstance(unalias(n.under), Named) and not self.acceptable(n.under):
+            n.under = self.basic()
         self.named[pkg].append(n)
         if not is_iface(n) and not isinstance(underlying(n), Ptr):
             self.add_methods(n)
@@ -986,11 +1140,13 @@ class TypeGen:
             names.append(nm)
         if r.random() < 0.3 and "String" not in names:
             names.append("String")
+        if self.av("C15-call-pointer-args"):
+            names = [x_ for x_ in names if x_ not in ("Apply", "Each")]
         names.sort()
         allptr = r.random() < 0.3
         for i, nm in enumerate(names):
             if nm == "Set":
-                ptr = r.random() < 0.8
+                ptr = allptr or r.random() < 0.8
             else:
                 ptr = allptr or r.random() < 0.3
             n.methods.append(make_method(n, nm, ptr, self.count % 50 + i))
@@ -998,6 +1154,11 @@ class TypeGen:
     def add_alias(self, pkg):
         r = self.rng
         t = self.rand_type(pkg, 1)
+        for _ in range(10):
+            if self.av("C15-alias-struct-methods-link") and isinstance(t, Struct) and any(f.embedded for f in t.fields):
+                t = self.rand_type(pkg, 1)
+        if self.av("C15-alias-struct-methods-link") and isinstance(t, Struct) and any(f.embedded for f in t.fields):
+            t = Slice(T_INT)
         a = Alias(self.fresh("A"), pkg, t)
         self.aliases[pkg].append(a)
         return a
@@ -1370,12 +1531,16 @@ def unit_src(tg, vg, u, rngseed, mode, partners):
     add("\tw.Try(\"matrix\", func() { w.Matrix(rt, partners) })")
     # identity of source-level derived types with reflect-constructed ones
     add("\tw.Try(\"same\", func() {")
-    add("\t\tw.Same(\"ptr\", reflect.TypeOf((**%s)(nil)).Elem(), reflect.PointerTo(rt))" % T)
+    is_ptr = isinstance(underlying(R), Ptr)
+    is_func = isinstance(underlying(R), Func)
+    if not (is_ptr and "C15-ptrto-extra-star" in tg.avoid) and not (is_func and "C15-funcof-func-identity" in tg.avoid):
+        add("\t\tw.Same(\"ptr\", reflect.TypeOf((**%s)(nil)).Elem(), reflect.PointerTo(rt))" % T)
     add("\t\tw.Same(\"slice\", reflect.TypeOf((*[]%s)(nil)).Elem(), reflect.SliceOf(rt))" % T)
     add("\t\tw.Same(\"array\", reflect.TypeOf((*[3]%s)(nil)).Elem(), reflect.ArrayOf(3, rt))" % T)
     add("\t\tw.Same(\"chan\", reflect.TypeOf((*<-chan %s)(nil)).Elem(), reflect.ChanOf(reflect.RecvDir, rt))" % T)
     add("\t\tw.Same(\"map\", reflect.TypeOf((*map[string]%s)(nil)).Elem(), reflect.MapOf(reflect.TypeOf(\"\"), rt))" % T)
-    add("\t\tw.Same(\"func\", reflect.TypeOf((*func(%s, ...%s) *%s)(nil)).Elem(), reflect.FuncOf([]reflect.Type{rt, reflect.SliceOf(rt)}, []reflect.Type{reflect.PointerTo(rt)}, true))" % (T, T, T))
+    if not (is_ptr and "C15-ptrto-extra-star" in tg.avoid) and not (is_func and "C15-funcof-func-identity" in tg.avoid):
+        add("\t\tw.Same(\"func\", reflect.TypeOf((*func(%s, ...%s) *%s)(nil)).Elem(), reflect.FuncOf([]reflect.Type{rt, reflect.SliceOf(rt)}, []reflect.Type{reflect.PointerTo(rt)}, true))" % (T, T, T))
     add("\t})")
 
     def gen(fl, sd, target, top=True):
@@ -1414,8 +1579,10 @@ def unit_src(tg, vg, u, rngseed, mode, partners):
     else:
         names = sorted(full_mset(R).keys()) if not is_iface(R) else sorted(underlying(R).all_methods().keys())
         names = [n_ for n_ in names if n_[:1].isupper()]
+        skip_v = "C15-method-direct-addressable" in tg.avoid and direct_shaped(R) and not isinstance(underlying(R), Ptr)
         for nm in names[:6] + ["Nope"]:
-            add("\tw.Res(%s, reflect.ValueOf(&d).Elem().MethodByName(%s))" % (go_quote("v." + nm), go_quote(nm)))
+            if not skip_v:
+                add("\tw.Res(%s, reflect.ValueOf(&d).Elem().MethodByName(%s))" % (go_quote("v." + nm), go_quote(nm)))
             add("\tw.Res(%s, reflect.ValueOf(&d).MethodByName(%s))" % (go_quote("p." + nm), go_quote(nm)))
         add("\tif reflect.ValueOf(&d).NumMethod() > 0 {")
         add("\t\tw.Res(\"p.#0\", reflect.ValueOf(&d).Method(0))")
@@ -1430,7 +1597,8 @@ def generate(seed, index, tier="quick", only=None, avoid=()):
     rng = random.Random(seed_for(seed, index, 1))
     npk, nnamed, nroots = SIZES.get(tier, SIZES["quick"])
     pkgs = ["p%d" % i for i in range(npk)]
-    module = MODULES[(seed + index) % len(MODULES)]
+    mods = [m for m in MODULES if not (m[:1].isdigit() and "C15-method-order-pkgpath" in avoid)]
+    module = mods[(seed + index) % len(mods)]
     mode = "dyn" if (seed + index) % 2 == 0 else "const"
     tg = TypeGen(rng, pkgs, tuple(avoid))
     vg = ValGen(tg)
@@ -1507,8 +1675,8 @@ def generate(seed, index, tier="quick", only=None, avoid=()):
     main += ['\t"%s/%s"' % (module, p) for p in pkgs] + ['\t"%s/w"' % module, ")", ""]
     main += ["var _ = %s.U%s" % (p, next(u.id for u in units if u.pkg == p)) for p in pkgs]
     main += ["", "func main() {", "\tfrom := 0", "\tif len(os.Args) > 1 {", "\t\tfrom, _ = strconv.Atoi(os.Args[1])", "\t}"]
-    if "C15-named-iface-pkgpath" in avoid:
-        main.append("\tw.SkipIfacePkgPath = true")
+    for a in sorted(avoid):
+        main.append("\tw.Avoid[%s] = true" % go_quote(a))
     main.append("\tunits := []func(){%s}" % ", ".join("%s.U%s" % (u.pkg, u.id) for u in run))
     main += ["\tfor i, u := range units {", "\t\tif i >= from {", "\t\t\tw.Try(\"unit\", u)", "\t\t}", "\t}", "\tw.P(\"END \" + strconv.Itoa(len(units)))", "}", ""]
     files["main.go"] = "\n".join(main)
@@ -1516,10 +1684,18 @@ def generate(seed, index, tier="quick", only=None, avoid=()):
     return files, meta
 
 
+EXTRA_AVOID = ("C15-method-direct-addressable", "C15-map-indirect-slot-size", "C15-empty-string-to-slice", "C15-convert-float32",
+               "C15-method-order-pkgpath", "C15-alias-struct-methods-link")
+ALL_AVOID = ("C15-main-pkg-path", "C15-named-iface-pkgpath", "C15-structstr-tags", "C15-func-struct-tags", "C15-tag-collision",
+             "C15-ptrto-extra-star", "C15-named-ptr-string", "C15-named-func-type", "C15-convert-int-narrow", "C15-chan-paren",
+             "C15-funcof-func-identity", "C15-func-elem-size", "C15-ptr-func-addr", "C15-trailing-zero-size", "C15-call-pointer-args",
+             "C15-call-zero-size", "C15-embedded-generic-compile")
+
+
 if __name__ == "__main__":
     import sys
     fs, meta = generate(int(sys.argv[1]), int(sys.argv[2]), "quick", only=sys.argv[4].split(",") if len(sys.argv) > 4 else None,
-                        avoid=tuple(os.environ.get("C15_AVOID", "").split(",")) if os.environ.get("C15_AVOID") else ())
+                        avoid=ALL_AVOID + EXTRA_AVOID if os.environ.get("C15_AVOID") == "all" else tuple(x for x in os.environ.get("C15_AVOID", "").split(",") if x))
     out = sys.argv[3]
     for rel, txt in fs.items():
         p = os.path.join(out, rel)
